@@ -45,6 +45,7 @@ class SimFS:
         self.kernel = None
         self.yield_point = yield_point or (lambda label, hot=False: None)
         self.hot = set()          # pids that just created a file (in-flight state)
+        self.mark_hot = lambda pid: None
         self.current_pid = current_pid or (lambda: 1)
         self.block = None         # callable(predicate, label) for blocking locks
         self.oplog = []           # (pid, op, args) in execution order
@@ -138,6 +139,7 @@ class SimFS:
         if node.children:
             raise oserr(errno.ENOTEMPTY, path)
         del parent.children[name]
+        self.mark_hot(self.current_pid())      # "I was the last one" is in-flight state
         self._log("rmdir", path)
 
     def rename(self, src, dst):
@@ -158,6 +160,7 @@ class SimFS:
                 raise oserr(errno.EISDIR, dst)
         del sp.children[sn]
         dp.children[dn] = node
+        self.mark_hot(self.current_pid())
         self._log("rename", src, dst)
 
     def rmtree(self, path):
@@ -220,6 +223,7 @@ class SimFS:
             node = Inode("file")
             parent.children[name] = node
             self.hot.add(self.current_pid())
+            self.mark_hot(self.current_pid())
             self._log("create", path)
         else:
             if flags & real_os.O_CREAT and flags & real_os.O_EXCL:
